@@ -284,10 +284,12 @@ pub fn generate(ctx: &Ctx, rng: &mut Rng, n_ops: u64) -> String {
                 for b in 0..nn {
                     let (na, nx, nb) = (ctx.n(a), ctx.n(x), ctx.n(b));
                     if nw.node(na).is_service()
-                        && nw.node(nx).is_service()
                         && nw.node(nb).is_service()
                         && nw.vehicle_type_for(na) == nw.vehicle_type_for(nb)
-                        && nw.vehicle_type_for(na) == nw.vehicle_type_for(nx)
+                        // the middle node is a trip of the same type, or a maintenance slot (which
+                        // `Tour::new_dummy` drops when the vehicle is replaced by a dummy)
+                        && ((nw.node(nx).is_service() && nw.vehicle_type_for(na) == nw.vehicle_type_for(nx))
+                            || nw.node(nx).is_maintenance())
                         && nw.can_reach(na, nx)
                         && nw.can_reach(nx, nb)
                         && !nw.can_reach(na, nb)
@@ -298,7 +300,9 @@ pub fn generate(ctx: &Ctx, rng: &mut Rng, n_ops: u64) -> String {
             }
         }
         if !gaps.is_empty() {
-            let (a, x, b) = *rng.pick(&gaps);
+            let maint_gaps: Vec<(usize, usize, usize)> =
+                gaps.iter().copied().filter(|g| nw.node(ctx.n(g.1)).is_maintenance()).collect();
+            let (a, x, b) = if !maint_gaps.is_empty() && rng.chance(50) { *rng.pick(&maint_gaps) } else { *rng.pick(&gaps) };
             let vt = nw.vehicle_type_for(ctx.n(a)).0 as usize;
             let mut run = |st: &mut State, s: &mut String, op: String| {
                 s.push_str(&format!("O {}\n", op));
@@ -319,7 +323,10 @@ pub fn generate(ctx: &Ctx, rng: &mut Rng, n_ops: u64) -> String {
                 let reals: Vec<VehicleIdx> = st.sched.vehicles_iter_all().collect();
                 if !reals.is_empty() && st.sched.is_dummy(d) {
                     let r1 = *rng.pick(&reals);
-                    run(&mut st, &mut s, format!("fit {} {} {} {}", veh_tok(d), veh_tok(r1), x, x));
+                    // (a dropped maintenance slot is no longer on the dummy tour: not a segment of it)
+                    if tour_nodes(&st.sched, d).contains(&x) {
+                        run(&mut st, &mut s, format!("fit {} {} {} {}", veh_tok(d), veh_tok(r1), x, x));
+                    }
                     if st.sched.is_dummy(d) {
                         let nodes = tour_nodes(&st.sched, d);
                         if nodes.len() >= 2 {
